@@ -109,7 +109,20 @@ def gen_traces(ctx: Ctx, seed: int, n_traces: int, lo: int, hi: int, insert_bias
     rng = random.Random(seed)
     traces = []
     nviol = 0
-    for _ in range(n_traces):
+    A = lambda i, p, o="a", cnt=-1, m="none": {"a": "AddNode", "i": i, "p": p, "o": o, "cnt": cnt, "m": m}  # noqa: E731
+    L = lambda i, sn, so, dn, do: {"a": "AddLink", "i": i, "sn": sn, "so": so, "dn": dn, "do": do}           # noqa: E731
+    # directed prefixes: preconditions that random choice reaches rarely (index reuse inverting child order before an insertion,
+    # fan-in / fan-out with a deletion in the middle, parallel order links, deletion of a multi-linked node)
+    SCRIPTS = [
+        [A(2, 0), A(2, 0), A(2, 0), {"a": "DeleteNode", "i": 2, "n": 1}, A(2, 0, m="m"), A(1, 0), {"a": "InsertHugr", "i": 1, "p": 1}],
+        [A(1, 0), A(1, 0), A(1, 0), L(1, 1, 0, 3, 0), L(1, 2, 0, 3, 0), L(1, 2, 1, 3, 0), {"a": "DeleteLink", "i": 1, "sn": 2, "so": 0, "dn": 3, "do": 0}],
+        [A(1, 0), A(1, 0), L(1, 1, 0, 2, 0), L(1, 1, 0, 2, 1), L(1, 1, 0, 2, 0), {"a": "DeleteLink", "i": 1, "sn": 1, "so": 0, "dn": 2, "do": 0}],
+        [A(2, 0), A(2, 0), L(2, 1, -1, 2, -1), L(2, 1, -1, 2, -1), {"a": "AddOrderLink", "i": 2, "sn": 1, "dn": 2}, A(1, 0), {"a": "InsertHugr", "i": 1, "p": 0}],
+        [A(1, 0), A(1, 0), A(1, 0), L(1, 1, 0, 2, 0), L(1, 3, 0, 2, 0), L(1, 2, -1, 3, -1), L(1, 2, 1, 1, 1), {"a": "DeleteNode", "i": 1, "n": 2}, A(1, 0, cnt=2)],
+        [A(2, 0, cnt=2), A(2, 1, cnt=0), A(1, 0), {"a": "InsertHugr", "i": 1, "p": 1}, {"a": "InsertHugr", "i": 1, "p": 0}],
+    ]
+    for tno in range(n_traces):
+        script = [dict(e) for e in SCRIPTS[tno % len(SCRIPTS)]] if tno < 2 * len(SCRIPTS) else []
         ad = StoreAdapter((-1, 0, 1, 2))
         live = {1: [0], 2: [0]}
         kids = {1: {0: 0}, 2: {0: 0}}
@@ -121,9 +134,15 @@ def gen_traces(ctx: Ctx, seed: int, n_traces: int, lo: int, hi: int, insert_bias
         for _ in range(rng.randint(lo, hi)):
             i = 1 if rng.random() < 0.7 else 2
             r = rng.random()
-            if insert_bias and rng.random() < insert_bias and len(live[1]) + len(live[2]) <= 16 and len(live[2]) <= 6:
+            if script:
+                ev = script.pop(0)
+                i = ev["i"]
+                r = 2.0
+            elif insert_bias and rng.random() < insert_bias and len(live[1]) + len(live[2]) <= 16 and len(live[2]) <= 6:
                 r = 0.99
-            if r < 0.25 and len(live[i]) < 12:
+            if r > 1.5:
+                pass
+            elif r < 0.25 and len(live[i]) < 12:
                 ev = {"a": "AddNode", "i": i, "p": rng.choice(live[i]), "o": rng.choice(["a", "b", "const"]),
                       "cnt": rng.choice([-1, 0, 2]), "m": rng.choice(["none", "m", "u"])}
                 if ev["o"] == "const":
